@@ -93,7 +93,7 @@ def check_case(ctx, case):
 
 
 def run(ctx):
-    for k in range(ctx.n(16, 160)):
+    for k in range(ctx.n(24, 200)):
         case = krig.gen_case(ctx.rng, nobs=(10, 36))
         # keep the systems well conditioned: metamorphic relations are compared at 1e-7
         if case['vario']['model'] == 'matern' and case['vario'].get('smoothness', 0) > 2:
